@@ -320,7 +320,7 @@ namespace link_layer {
                     }
                     else
                     {
-                        link_layer.defered_ll_control_pdu_ = pdu;
+                        link_layer.defer_ll_control_pdu( pdu );
                     }
 
                     return true;
@@ -755,6 +755,9 @@ namespace link_layer {
         // TODO Make handle_pending_ll_control() impossible to fail by checking PDUs immediately
         ll_result handle_pending_ll_control( std::uint16_t instance );
 
+        // stores a copy of the given, received LL control PDU until its instant is reached
+        void defer_ll_control_pdu( const write_buffer& pdu );
+
         connection_details details() const;
 
         static constexpr unsigned       first_advertising_channel   = 37;
@@ -843,6 +846,8 @@ namespace link_layer {
         delta_time                      procedure_timeout_;
         std::uint16_t                   defered_conn_event_counter_;
         write_buffer                    defered_ll_control_pdu_;
+        // the largest PDU that is defered, is the LL_CONNECTION_UPDATE_IND (12 octets)
+        std::uint8_t                    defered_ll_control_pdu_buffer_[ layout_t::data_channel_pdu_memory_size( 12 ) ];
         connection_data_t               connection_data_;
         bool                            termination_send_;
         std::uint16_t                   used_features_;
@@ -1575,7 +1580,7 @@ namespace link_layer {
                 }
                 else
                 {
-                    defered_ll_control_pdu_ = pdu;
+                    defer_ll_control_pdu( pdu );
                 }
             }
             else if ( opcode == LL_TERMINATE_IND && size == 2 )
@@ -1614,7 +1619,7 @@ namespace link_layer {
                 }
                 else
                 {
-                    defered_ll_control_pdu_ = pdu;
+                    defer_ll_control_pdu( pdu );
                 }
             }
             else if ( opcode == LL_PING_REQ && size == 1 )
@@ -1752,6 +1757,17 @@ namespace link_layer {
         }
 
         return result;
+    }
+
+    template < class Server, template < std::size_t, std::size_t, class > class ScheduledRadio, typename ... Options >
+    void link_layer< Server, ScheduledRadio, Options... >::defer_ll_control_pdu( const write_buffer& pdu )
+    {
+        // The received PDU is given back to the receive buffer, right after it was handled. To not
+        // have the PDU overwritten by PDUs received before the instant, a copy is kept.
+        const std::size_t size = std::min( pdu.size, sizeof( defered_ll_control_pdu_buffer_ ) );
+
+        std::copy( pdu.buffer, pdu.buffer + size, &defered_ll_control_pdu_buffer_[ 0 ] );
+        defered_ll_control_pdu_ = write_buffer{ &defered_ll_control_pdu_buffer_[ 0 ], size };
     }
 
     template < class Server, template < std::size_t, std::size_t, class > class ScheduledRadio, typename ... Options >
